@@ -20,7 +20,14 @@ static int ctor_ran; __attribute__((constructor)) static void ctor(void){ ctor_r
 extern char __executable_start, etext, edata, end; 
 __attribute__((weak)) extern int undefined_weak_sym; __attribute__((weak)) int weak_fn(void);
 extern int lib_data[4]; extern int lib_fn(int); extern const char *lib_str(void); extern __thread int lib_tls; extern int *lib_tls_addr(void); extern int lib_cb(int (*)(int), int);
+extern __thread int gd_a; extern __thread long gd_b[]; extern int tlsd_get(void); extern void tlsd_bump(int); extern long tlsd_sum(void); extern int *tlsd_addr(void); extern int *tlsd_tl0_addr(void); extern long tlsd_gap(void); extern unsigned tlsd_align(void);
+extern __thread char tls_fill[];
+extern int tlsl_get(void); extern void tlsl_bump(int); extern long tlsl_sum(void); extern long tlsl_gap(void); static unsigned long h2; static void mix2(unsigned long v){ h2 = (h2 ^ v) * 1099511628211UL + 11; }
 int main(void){
+    mix(tlsd_get()); mix(tlsd_sum()); tlsd_bump(52); mix(tlsd_get()); mix(tlsd_sum()); mix(gd_a); gd_a += 4; mix(tlsd_get());
+    mix(tlsd_addr() == &gd_a); mix(tlsd_tl0_addr() == &tl0); mix(tlsd_gap()); mix(tlsd_align()); gd_b[0] = 31; tlsd_bump(3); mix(tlsd_sum());
+    tls_fill[0] += 1; mix(tls_fill[0]);
+    mix2(tlsl_get()); mix2(tlsl_sum()); tlsl_bump(5); mix2(tlsl_get()); mix2(tlsl_sum()); mix2(tlsl_gap()); tlsl_bump(3); mix2(tlsl_sum());
     for (unsigned i = 0; i < 4; i++) mixs(*strtab[i]);
     mixs(sa0); mix(strcmp(s0, sa0) == 0);
     mixs(sa1); mix(strcmp(s1, sa1) == 0);
@@ -36,4 +43,4 @@ int main(void){
     mix(&etext > &__executable_start); mix(&end >= &edata);
     mix(lib_data[1]); lib_data[2] = 77; mix(lib_fn(5)); mixs(lib_str()); mix(lib_tls); lib_tls = 5; mix(*lib_tls_addr()); mix(lib_tls_addr() == &lib_tls);
     mix(lib_cb(f2, 50)); mix(lib_cb(ifn, 3));
-    printf("%lx\n", h); return (int)(h & 63); }
+    printf("%lx\n%lx\n", h, h2); return (int)(h & 63); }
